@@ -51,9 +51,13 @@ def _templates(et, dim, tier, beam=False):
         return ["t2", "two", "dist2"] if dim == 2 else ["conf2", "conf1"]
     t = Z.topo(et)
     if dim == 2:
-        out = ["t2", "two"] + (["t2alt"] if t == "TRI" else []) + ["dist2", "dist1", "gmsh_quad", "gmsh_L"]
+        # "mirrormerge": a part and its mirror image merged into one conforming mesh (the mirrored elements are numbered clockwise:
+        # element orientation is not uniform inside the group)
+        out = ["t2", "two"] + (["t2alt"] if t == "TRI" else []) + ["dist2", "dist1", "gmsh_quad", "gmsh_L", "mirrormerge"]
+        if et == "QUAD4":
+            out.append("collapsed")  # quadrangles degenerated into triangles (one node listed twice): the classical all-quad grading
         return out + (["gmsh_pent", "gmsh_quad_org"] if th else [])
-    out = ["t2", "two"] + (["dist2", "dist1"] if t in ("HEXA", "TETRA") else []) + ["gmsh_quad"]
+    out = ["t2", "two"] + (["dist2", "dist1"] if t in ("HEXA", "TETRA") else []) + ["gmsh_quad", "mirrormerge"]
     return out + (["gmsh_L"] if th else [])
 
 
@@ -215,6 +219,16 @@ def _template(case, dim):
         zm = Z.zoo_from_mesh(mesh, {k: v for k, v in ex.items() if k in ("measure", "dim")}, name=f"gmsh[{ets},{poly}]")
         zm.boundary = Z.compute_boundary(zm.coords, zm.groups)  # by face counting, independent of the physical groups
         return zm, mesh
+    if m == "mirrormerge":
+        from EasyFEA.FEM._mesh import Mesh
+
+        part = (Z.template_2d(ets, k=2) if dim == 2 else Z.template_3d(ets, k=2)).build(with_boundary=False)
+        other = part.copy()
+        other.Symmetry((1.0, 0.0, 0.0), (1.0, 0.0, 0.0))
+        merged = Mesh.Merge([part, other])
+        zm = Z.zoo_from_mesh(merged, {"measure": 2.0, "dim": dim}, name=f"mirrormerge[{ets}]")
+        zm.boundary = Z.compute_boundary(zm.coords, zm.groups)
+        return zm, None
     if dim == 2:
         if m == "two":
             k = 1 if (t == "TRI" and not isinstance(ets, tuple)) else [2, 1]
@@ -227,6 +241,13 @@ def _template(case, dim):
             return Z.template_2d(ets, k=2, distort=True), None
         if m == "dist1":
             return Z.template_2d(ets, k=1, distort=True), None
+        if m == "collapsed":
+            # unit square: two regular quadrangles on the left half, the right half fanned into collapsed quadrangles around an interior node
+            co = np.array([[0, 0, 0], [0.5, 0, 0], [1, 0, 0], [0, 0.5, 0], [0.5, 0.5, 0], [1, 0.45, 0], [0, 1, 0], [0.5, 1, 0], [1, 1, 0],
+                           [0.78, 0.52, 0]], dtype=float)
+            con = np.array([[0, 1, 4, 3], [3, 4, 7, 6], [1, 2, 9, 9], [2, 5, 9, 9], [5, 8, 9, 9], [8, 7, 9, 9], [7, 4, 9, 9], [4, 1, 9, 9]])
+            bnd = np.array([[0, 1], [1, 2], [2, 5], [5, 8], [8, 7], [7, 6], [6, 3], [3, 0]])
+            return Z.ZooMesh(co, {"QUAD4": con}, {"measure": 1.0, "centroid": np.array([0.5, 0.5, 0.0]), "dim": 2}, "collapsedQUAD4", {"SEG2": bnd}), None
     else:
         if m == "conf2":
             return R.mixed3d_conforming(ets, 2), None
